@@ -81,8 +81,36 @@ class GuardWalker:
 			return self._helper_memo[id(f)]
 		self._helper_memo[id(f)] = False
 		rets = [n for n in ast.walk(f.node) if isinstance(n, ast.Return)]
-		ok = bool(rets) and all(r.value is not None and self.implies(f, r.value) for r in rets) and always_exits(f.node.body)
+		ok = bool(rets) and self._returns_imply(f, f.node.body, False) and always_exits(f.node.body)
 		self._helper_memo[id(f)] = ok
+		return ok
+
+	def _returns_imply(self, f: FuncInfo, stmts: list[ast.stmt], g: bool) -> bool:
+		"""every return in stmts hands out a value that is truthy only with the guard on: the value implies it, or it is a constant falsy value, or the
+		return stands where the guard is already known to be on (behind `if not <guard>: return False`)"""
+		ok = True
+		for s in stmts:
+			if isinstance(s, ast.Return):
+				v = s.value
+				const_falsy = isinstance(v, ast.Constant) and not v.value
+				ok = ok and v is not None and (g or const_falsy or self.implies(f, v))
+			elif isinstance(s, ast.If):
+				pos, neg = self.implies(f, s.test), self.falsy_implies(f, s.test)
+				ok = self._returns_imply(f, s.body, g or pos) and ok
+				ok = self._returns_imply(f, s.orelse, g or neg) and ok
+				if always_exits(s.body) and neg:
+					g = True
+				if s.orelse and always_exits(s.orelse) and pos:
+					g = True
+			elif isinstance(s, (ast.FunctionDef, ast.AsyncFunctionDef, ast.ClassDef)):
+				continue
+			else:
+				for fld in ('body', 'orelse', 'finalbody'):
+					blk = getattr(s, fld, None)
+					if isinstance(blk, list) and blk and isinstance(blk[0], ast.stmt):
+						ok = self._returns_imply(f, blk, g) and ok
+				for h in getattr(s, 'handlers', []) or []:
+					ok = self._returns_imply(f, h.body, g) and ok
 		return ok
 
 	# -- walk ------------------------------------------------------------------------------------------------
